@@ -187,10 +187,13 @@ PLAN["C13"] = dict(
 C15_ALL = ["c15_option_u8_full", "c15_option_u8_eps", "c15_option_u8_eps_tag_only", "c15_option_vec_eps", "c15_bound_u32_full", "c15_bound_u32_eps",
            "c15_controlflow_full", "c15_controlflow_eps", "c15_en_u8_full", "c15_en_u8_eps", "c15_e1_full", "c15_e1_eps", "c15_e2_full", "c15_e2_eps",
            "c15_e5_full", "c15_e5_eps"]
+C15_TAGONLY = ["c15_tagonly_option_u32_full", "c15_tagonly_option_u32_eps", "c15_tagonly_bound_u32_full", "c15_tagonly_bound_u32_eps", "c15_tagonly_bound_vec_eps", "c15_tagonly_cf_full", "c15_tagonly_cf_eps",
+               "c15_tagonly_en_u8_full", "c15_tagonly_en_u8_eps", "c15_tagonly_e1_full", "c15_tagonly_e2_eps"]
+_c15_to = lambda: names("c15", C15_TAGONLY, bound="every foreign tag value (all byte values / all usize values that no variant writes); the stream ends right after the tag", what="Err(InvalidTag(tag)) exactly: the tag is validated before the payload is touched")
 PLAN["C15"] = dict(
     quick=lambda seed: [dict(harnesses=names("c15", C15_ALL, bound="all 256 one-byte tags / all 2^64 pointer-width tags, payload symbolic",
-                                             what="Ok(variant) iff tag is the one the real serializer writes for it, else InvalidTag(tag)") + [twin("c15::c15_twin_reach")])],
-    thorough=lambda seed: [dict(harnesses=names("c15", C15_ALL, bound="all tags, payload symbolic", what="tag oracle") + [twin("c15::c15_twin_reach")], timeout=1800)],
+                                             what="Ok(variant) iff tag is the one the real serializer writes for it, else InvalidTag(tag)") + _c15_to() + [twin("c15::c15_twin_reach")])],
+    thorough=lambda seed: [dict(harnesses=names("c15", C15_ALL, bound="all tags, payload symbolic", what="tag oracle") + _c15_to() + [twin("c15::c15_twin_reach")], timeout=1800)],
     bounds={"tags": "all 256 byte values (Option, Bound, ControlFlow); all 2^64 usize values (derived enums En, E1, E2; E5: written tag or any foreign value)"},
     outside=["a valid tag of a *different* variant placed before a payload (payload misinterpretation, not a tag property)", "derived enums outside the universe"],
     stubs=["Sink", "Al"], assumptions=[])
@@ -437,6 +440,9 @@ C17_PROBES = [
     dict(feature="p_string_field", expect="reject", diag=r"ZeroCopy|CopyType|Copy|is not satisfied|type mismatch", what="zero-copy struct with a String field"),
     dict(feature="p_boxslice_field", expect="reject", diag=r"ZeroCopy|CopyType|Copy|is not satisfied|type mismatch", what="zero-copy struct with a Box<[T]> field"),
     dict(feature="p_no_repr_c", expect="reject", diag=r"not repr\(C\)|proc-macro derive panicked", what="zero_copy without repr(C)"),
+    dict(feature="p_repr_align_only", expect="reject", diag=r"not repr\(C\)|proc-macro derive panicked", what="zero_copy with repr(align(8)) only (default Rust layout)"),
+    dict(feature="p_repr_packed_only", expect="reject", diag=r"not repr\(C\)|proc-macro derive panicked", what="zero_copy with repr(packed) only"),
+    dict(feature="p_repr_packed2_only", expect="reject", diag=r"not repr\(C\)|proc-macro derive panicked", what="zero_copy with repr(packed(2)) only"),
     dict(feature="p_both_attrs", expect="reject", diag=r"both zero copy and deep copy|proc-macro derive panicked", what="zero_copy and deep_copy together"),
     dict(feature="p_nested_bad", expect="reject", diag=r"ZeroCopy|CopyType|is not satisfied|type mismatch", what="vector of a wrongly declared zero-copy struct"),
     dict(feature="p_enum_deep_before_tuple", expect="reject", diag=r"ZeroCopy|CopyType|is not satisfied|type mismatch", what="zero-copy enum: deep field in a variant declared before a tuple variant"),
